@@ -45,6 +45,14 @@ def plan(ctx):
             qs.append(vf.Query('known/C19_EOL2/%s' % pol, unit, h, expect_fail='C19_EOL2', known=['D11'],
                                note='confirmation: under eol::%s the line delimited by begin_of_line (column, i.e. Eol::ch) and end_of_line (eol rule from the position) '
                                     'is not the line of the eol rule' % pol, **kw))
+    # positions at which a real run stopped (success, local failure, global failure raised inside a limit_bytes window), asked on the input of that run
+    unit = ctx.unit('c19_after', cpp=os.path.join(vf.VERIF, 'harness', 'c19_after.cpp'))
+    NA = 5 if ctx.quick() else 7
+    for mode in ('eager', 'lazy'):
+        qs.append(vf.Query('after-run/lf/' + mode, unit, h, defines={'C19_POL': 0, 'C19_W': 'w_c19_after_' + mode, 'C19_N': NA, 'C19_CMAX': CMAX, 'C19_AFTER': 1}, unwind=NA + 3, mem_gb=3,
+                           bounds={'bytes': NA, 'policy': 'eol::lf', 'tracking': mode, 'grammar': "sor< seq< at< one<'a'> >, G, opt< eol > >, eol >, G = seq< plus< one<'a'> >, must< one<'b'> > > under limit_bytes< 2 >, started after j bytes",
+                                   'position': 'where the run stopped (any outcome), helpers asked on the same input object', 'initial_counters': 'symbolic'},
+                           note='helpers on the input of a real run that ended by success, failure or a global failure raised inside a limit_bytes window'))
     if ctx.quick():
         # D11 is independent of the policy: one confirmation is enough in the quick tier
         qs = [q for q in qs if not (q.name.startswith('known/D11/') and not q.name.endswith('/lf_crlf'))]
